@@ -20,7 +20,7 @@ NEAR_GRAMMAR = [
 ]
 
 
-def run_case(built, files, structured, macros, use_cache=None, lock=None, amb=None):
+def run_case(built, files, structured, macros, use_cache=None, lock=None, amb=None, nofile=None):
     with core.Box(tag="c06") as box:
         cfg_text = core.make_config(structured=True if structured else None, macros=macros, use_cache=use_cache)
         for rel, data in files.items():
@@ -31,7 +31,7 @@ def run_case(built, files, structured, macros, use_cache=None, lock=None, amb=No
             open(lockp, "w").write(lock)
         if amb:
             ambient.apply(box.proj, amb)
-        e1 = core.run_breadlog(built, box, cfg, trace=True, timeout=300)
+        e1 = core.run_breadlog(built, box, cfg, trace=True, timeout=300, nofile=nofile)
         after1 = {rel: box.read(rel) for rel in files}
         lock1 = core.read_lock(lockp)
         ck = core.run_breadlog(built, box, cfg, check=True, timeout=300)
@@ -110,18 +110,34 @@ def work(job):
             files["src/unusable.rs"] = ('fn u() {\n    info!(ref = request_id; "unusable one");\n    warn!(a = 1, ref = "x"; "unusable two");\n'
                                         '    // breadlog:ignore\n    error!("ignored");\n}\n').encode()
         if rnd.random() < 0.4:
+            # several statements lacking a reference on one source line (if/else, match arms)
+            files["src/sameline.rs"] = ('fn s(v: bool) {\n    if v { info!("SL a") } else { warn!("SL b") }\n'
+                                        '    match v { true => error!(k = 1; "SL c"), false => info!("SL d"), }\n    info!("SL e"); warn!("SL f"); error!("SL g");\n}\n').encode()
+        if rnd.random() < 0.4:
             body = "".join("    %s\n" % (x % k) for k, x in enumerate(rnd.sample(NEAR_GRAMMAR, 5)))
             files["src/neargrammar.rs"] = ("fn ng() {\n%s    info!(\"NG ordinary\");\n}\n" % body).encode()
             res["counters"]["trees_with_near_grammar_statements"] = 1
         if use_cache is not False and rnd.random() < 0.3 and t.existing:
             lock = core.lock_text(max(t.existing) + 1 + rnd.choice([0, 5]))
+    elif kind == "manyfiles":
+        # many files updated by one run under a low descriptor limit (resources taken per file must be given back per file)
+        files = {}
+        for k in range(payload):
+            files["src/m%02d/f%04d.rs" % (k % 7, k)] = ('fn f%d() {\n    info!("many files %d");\n%s}\n' % (k, k, '    warn!(a = 1; "second %d");\n' % k if k % 3 == 0 else "")).encode()
+    elif kind == "complete":
+        # every statement already carries a reference and the lock is absent or unusable: the idle edit run succeeds, so --check passes
+        t = trees.gen_tree(rnd, nfiles=rnd.choice([1, 2, 4]), stmts=(1, 12), structured=structured, idclass=rnd.choice(["dense", "gaps", "mid"]),
+                           label="c%d" % i, complete_prob=1.1)
+        files = dict(t.files)
+        use_cache = rnd.choice([None, None, True])
+        lock = rnd.choice([None, None, "next_reference_id: [torn\n", "<<<<<<< HEAD\nnext_reference_id: 4\n=======\nnext_reference_id: 9\n>>>>>>> b\n", ""])
     elif kind == "corpus":
         label, files = payload
         structured = (i % 2 == 1)
         macros = gen.DEFAULT_MACROS + [("log", "debug"), ("log", "trace")]
     amb = ambient.choose(rnd, files, p=0.35)
     res["counters"]["ambient_" + amb["kind"]] = 1
-    r = run_case(built, files, structured, macros, use_cache, lock, amb)
+    r = run_case(built, files, structured, macros, use_cache, lock, amb, nofile=(40 if kind == "manyfiles" else None))
     for x in (r["e1"], r["ck"], r["e2"]):
         if x.panicked() or x.timed_out:
             res["inconclusive"]["run-crashed-or-timeout (C17's business)"] = 1
@@ -155,6 +171,8 @@ def main(tier):
     rnd = core.rng_for("c06main", ck.seed, tier)
     quick = tier == "quick"
     jobs = [(built, "gen", ck.seed, i, None) for i in range(3000 if quick else 25000)]
+    jobs += [(built, "complete", ck.seed, i, None) for i in range(300 if quick else 3000)]
+    jobs += [(built, "manyfiles", ck.seed, i, n) for i, n in enumerate([120, 300] if quick else [120, 300, 1100, 2500])]
     shards, reg = trees.corpus_shards(rnd, 16, registry_n=0 if quick else 1500)
     for i, sh in enumerate(shards):
         jobs.append((built, "corpus", ck.seed, i, sh))
